@@ -13,7 +13,7 @@ R5 bitmap protocol: effect summaries of the FilterState/Filtered/Layered methods
 import itertools
 
 from rulekit import Facts, where, proj_names
-from rulekit.sym import PathEval, show
+from rulekit.sym import PathEval, show, canon
 from rulekit.query import closure_of_term, guards_of, recv_fields, option_test
 
 SF = "tracing_subscriber::filter::subscriber_filters::"
@@ -439,17 +439,16 @@ def r4(ck, F):
         "FilterId::none": [([], "FilterId{0}")],
         "FilterId::disabled": [([], "FilterId{<impl u64>::MAX}")],
         "FilterId::and": [([("(arg1.0 Eq disabled().0)", 0)], "FilterId{(arg1.0 BitOr arg2.0)}"), ([("(arg1.0 Eq disabled().0)", None)], "FilterId{arg2.0}")],
-        "FilterMap::any_enabled": [([], "(arg1.bits Ne <impl u64>::MAX)")],
+        "FilterMap::any_enabled": [([], "(<impl u64>::MAX Ne arg1.bits)")],
     }
     for nm, rows_want in want.items():
         b = F.body(SF + nm)
         if not ck.anchor("C07.R4", nm, b):
             continue
-        got = [([(show(c[0]), c[1]) for c in p.conds if c[0][0] != "const"], show(p.ret)) for p in PathEval(b).run() if p.end == "return"]
+        # (terms in canonical spelling: operands of commutative operators in text order)
+        got = [([(show(canon(c[0])), c[1]) for c in p.conds if c[0][0] != "const"], show(canon(p.ret))) for p in PathEval(b).run() if p.end == "return"]
         norm = lambda rows: sorted(((tuple((t, "0" if v == 0 else "else") for t, v in c), r) for c, r in rows), key=repr)
-        alt = {"(arg1.bits Ne <impl u64>::MAX)": {"(arg1.bits Ne <impl u64>::MAX)", "(<impl u64>::MAX Ne arg1.bits)"},
-               "FilterId{(arg1.0 BitOr arg2.0)}": {"FilterId{(arg1.0 BitOr arg2.0)}", "FilterId{(arg2.0 BitOr arg1.0)}"}}
-        ok = len(got) == len(rows_want) and all(any(gc == wc and (gr == wr or gr in alt.get(wr, ())) for gc, gr in norm(got)) for wc, wr in norm(rows_want))
+        ok = len(got) == len(rows_want) and all(any(gc == wc and gr == wr for gc, gr in norm(got)) for wc, wr in norm(rows_want))
         if ok:
             ck.ok("C07.R4", "%s table" % nm, fn=b.path)
         else:
@@ -481,7 +480,7 @@ def r4(ck, F):
             what = "self" if r == ("arg", 1) else (r[3][0][1] + ("~" if "Not" in show(r[3][0]) else "") if r[0] == "agg" and r[3][0][0] == "bin" else show(r))
             rows[(bool(dis and dis[0] != 0), None if en is None and not (dis and dis[0] == 0) else (en != 0 if "arg3" in conds else None))] = what
         good = rows.get((True, None)) == "self" and rows.get((False, True)) == "BitAnd~" and rows.get((False, False)) == "BitOr"
-        r_ie = [show(p.ret) for p in PathEval(ie).run() if p.end == "return"]
+        r_ie = [show(canon(p.ret)) for p in PathEval(ie).run() if p.end == "return"]
         good2 = r_ie == ["((arg1.bits BitAnd arg2.0) Eq 0)"]
         if good and good2:
             ck.ok("C07.R4", "FilterMap::set/is_enabled: enabled clears the bit, disabled sets it, is_enabled tests it", fn=st.path)
